@@ -115,6 +115,14 @@ type customPanic struct{ A int }
 
 func (h *StdHandler) PanicCustom() { h.l.add("PanicCustom"); panic(customPanic{3}) }
 func (h *StdHandler) PanicAbort()  { h.l.add("PanicAbort"); panic(http.ErrAbortHandler) }
+
+// a panic value encoding/json cannot marshal (a channel inside)
+type opaquePanic struct {
+	C   chan int
+	Why string
+}
+
+func (h *StdHandler) PanicOpaque() { h.l.add("PanicOpaque"); panic(opaquePanic{nil, "reindex"}) }
 func (h *StdHandler) Ctx(ctx context.Context, a int) int {
 	h.l.add("Ctx", a)
 	return a + 1
